@@ -146,67 +146,13 @@ def d2_5(ctx):
     _fixedstring_bounded(ctx)
 
 
-@rule(P, "D2.6", "T-DOM", floor=3)
+@rule(P, "D2.6", "T-WITNESS", floor=3)
 def d2_6(ctx):
-    """encode_value: DWORD writes require a bit index multiple of 32; too few values raise; over-long lists are cut."""
-    fn = ctx.model.func(f"{LX}:encode_value")
-    g = ctx.cfg(fn.node)
-    encs = [n for n in g.nodes if n.kind == "stmt" and any(isinstance(c, ast.Call) and attr_path(c.func) == "_type.encode" for c in walk(n.ast))]
-    mod32 = None
-    for t in g.nodes:
-        if t.kind == "test" and isinstance(t.ast, ast.BinOp) and isinstance(t.ast.op, ast.Mod) and ctx.folder.eval(t.ast.right, fn.module) == 32 and "bit" in src(t.ast.left):
-            mod32 = t
-    good = False
-    if mod32 is not None:
-        raised, cont = branch_outcome(g, mod32, True)
-        dword_t = [t for t in g.nodes if t.kind == "test" and isinstance(t.ast, ast.Compare) and atom_name(t.ast.left) == "data_type" and ctx.folder.eval(t.ast.comparators[0], fn.module) == "DWORD"]
-        good = raised == {"RequestError"} and not cont and bool(dword_t) and g.branch_dominates(dword_t[0], True, mod32)
-        # every encode on the DWORD path is after the alignment test: all paths dword_true -> enc pass mod32
-        if good:
-            start = [s for s, lab in dword_t[0].succ if lab is True][0]
-            good = all(g.must_pass({mod32}, start=start, sinks={e}) is None for e in encs)
-    ctx.check(good, ckey(fn, "alignment"), mod32.ast if mod32 else fn.node, "a BOOL-array write whose bit index is not a multiple of 32 raises RequestError before encoding", "misaligned BOOL-array writes are not rejected before the value is encoded (neighbouring bits would be overwritten)")
-    few = None
-    for t in g.nodes:
-        if t.kind == "test":
-            c = cmp_norm(t.ast)
-            if c and c[0] == "<=0" and c[1].terms == {"len(value)": 1, "value_elements": -1} and c[1].const == 1:
-                few = t
-    good = False
-    if few is not None:
-        raised, cont = branch_outcome(g, few, True)
-        arr = [e for e in encs if any(isinstance(c, ast.Call) and attr_path(c.func) == "_type.encode" and len(c.args) == 2 for c in walk(e.ast))]
-        good = raised == {"RequestError"} and not cont and bool(arr)
-    ctx.check(good, ckey(fn, "too-few"), few.ast if few else fn.node, "fewer values than requested elements raise RequestError", "a value list shorter than the requested element count is not rejected")
-    cut = any(isinstance(n, ast.Assign) and atom_name(n.targets[0]) == "value" and isinstance(n.value, ast.Subscript) and isinstance(n.value.slice, ast.Slice) and atom_name(n.value.slice.upper) == "value_elements" and n.value.slice.lower is None for n in walk(fn.node))
-    arr_call = [c for c in walk(fn.node) if isinstance(c, ast.Call) and attr_path(c.func) == "_type.encode" and len(c.args) == 2]
-    # the count handed to the array encoder is in the array's own unit: DWORDs for BOOL arrays (whose values are bools),
-    # the value count otherwise (Array.encode multiplies by the bools per element for bit-string elements, D6.6)
-    count_ok, count_facts = False, {}
-    if len(arr_call) == 1:
-        a = arr_call[0].args[1]
-        if isinstance(a, ast.IfExp) and isinstance(a.test, ast.Compare) and len(a.test.ops) == 1 and {atom_name(a.test.left), atom_name(a.test.comparators[0])} & {"data_type"}:
-            other = a.test.comparators[0] if atom_name(a.test.left) == "data_type" else a.test.left
-            is_dword = ctx.folder.eval(other, fn.module) == "DWORD"
-            eq = isinstance(a.test.ops[0], ast.Eq)
-            dword_arm, other_arm = (a.body, a.orelse) if eq else (a.orelse, a.body)
-            count_facts = {"bool_arrays": atom_name(dword_arm), "others": atom_name(other_arm)}
-            count_ok = is_dword and isinstance(a.test.ops[0], (ast.Eq, ast.NotEq)) and atom_name(dword_arm) == "elements" and atom_name(other_arm) == "value_elements"
-        elif atom_name(a) == "elements":
-            # bool_elements is only ever set for BOOL arrays, so value_elements == elements for every other array
-            pt = ctx.model.func(f"{LX}:LogixDriver._parse_tag_request").node
-            sets = [n for n in walk(pt) if isinstance(n, ast.Assign) and atom_name(n.targets[0]) == "bool_elements" and not (isinstance(n.value, ast.Constant) and n.value.value is None)]
-            from ..astutil import ancestors
-            only_dword = bool(sets) and all(any(isinstance(p_, ast.If) and isinstance(p_.test, ast.Compare) and ctx.folder.eval(p_.test.comparators[0], fn.module) == "DWORD" and isinstance(p_.test.ops[0], ast.Eq) for p_ in ancestors(n)) for n in sets)
-            count_facts = {"count": "elements", "bool_elements_only_for_DWORD": only_dword}
-            count_ok = only_dword
-        else:
-            count_facts = {"count": atom_name(a)}
-    ctx.check(cut and count_ok, ckey(fn, "truncate"), fn.node, "over-long lists are cut to the requested count and encoded with that count (DWORDs for BOOL arrays)",
-              f"over-long value lists are not truncated to the requested element count, or the count passed to the array encoder is not in the array's unit (DWORD count for BOOL arrays, value count otherwise): {count_facts}", **count_facts)
-    from ..cfg import handler_catches_all
-    wraps = any(isinstance(h, ast.ExceptHandler) and handler_catches_all(h) and any(isinstance(s, ast.Raise) and call_name(s.exc) == "RequestError" for s in h.body) for h in walk(fn.node))
-    ctx.check(wraps, ckey(fn, "wrap"), fn.node, "encoding failures become RequestError", "encode_value no longer converts encoding failures into RequestError")
+    """encode_value: DWORD writes require a bit index multiple of 32; too few values raise; over-long lists are cut and the count
+    handed to the array encoder is in the array's own unit; encoding failures become RequestError.  Decided by folding
+    `encode_value` on witness requests with the type's encoder as a marker (D2.10); an earlier form located the `% 32` test, the
+    slice and the conditional count expression and alarmed when the count was chosen by a statement."""
+    d2_10(ctx)
 
 
 @rule(P, "D2.7", "T-KEYS", floor=3)
@@ -359,6 +305,8 @@ def d2_10(ctx):
         ("d = 5", {"value": 5, "elements": 1, "bit": None, "bool_elements": None, "tag_info": info(atom_t)}, (5, None)),
         ("s[1] = 'abc'", {"value": "abc", "elements": 1, "bit": None, "bool_elements": None, "tag_info": info(arr_t, "STRING")}, (["abc"], 1)),
         ("raw bytes", {"value": b"\x01\x02", "elements": 1, "bit": None, "bool_elements": None, "tag_info": info(atom_t)}, b"\x01\x02"),
+        ("d = <a value the type's encoder refuses>", {"value": "boom", "elements": 1, "bit": None, "bool_elements": None, "tag_info": info(atom_t)}, "RequestError"),
+        ("arr{2} = <values the type's encoder refuses>", {"value": ["boom", "boom"], "elements": 2, "bit": None, "bool_elements": None, "tag_info": info(arr_t)}, "RequestError"),
     ]
     for label, parsed, want in plain:
         calls = []
@@ -372,6 +320,8 @@ def d2_10(ctx):
                 vals = it.ev(call.args[0], env)
                 cnt = it.ev(call.args[1], env) if len(call.args) > 1 else None
                 _calls.append((vals, cnt))
+                if vals == "boom" or vals == ["boom", "boom"]:
+                    raise Raise("DataError")
                 return b"<encoded>"
             return UNKNOWN
 
@@ -386,7 +336,7 @@ def d2_10(ctx):
             ctx.check(kind == "return" and res == want and not calls, key, fn.node, f"{label} passes through", f"{label}: {kind} {res!r}, encoder calls {calls}")
         else:
             ctx.check(kind == "return" and res == b"<encoded>" and calls == [want], key, fn.node, f"{label}: encoder receives {want}", f"{label}: {kind} {res!r}; the type's encoder received {calls} (expected {[want]}): a valid value is refused or the wrong values / count are encoded")
-    for start, count, supplied in ((0, 32, 32), (0, 40, 40), (0, 64, 64), (32, 72, 72), (32, 64, 64), (0, 40, 64), (64, 96, 200), (0, 33, 33), (None, 64, 64)):
+    for start, count, supplied in ((0, 32, 32), (0, 40, 40), (0, 64, 64), (32, 72, 72), (32, 64, 64), (0, 40, 64), (64, 96, 200), (0, 33, 33), (None, 64, 64), (5, 32, 32), (31, 32, 32), (33, 64, 64), (16, 16, 16)):
         if start is None:
             start_bit = None
             total = count
@@ -417,7 +367,10 @@ def d2_10(ctx):
         if kind == "unknown":
             ctx.undecided(key, fn.node, f"encode_value not foldable on this witness: {res}")
             continue
-        whole = count % 32 == 0 and supplied >= count
+        whole = count % 32 == 0 and supplied >= count and not (start or 0) % 32
+        if kind == "return" and (start or 0) % 32:
+            ctx.violation(key, fn.node, f"flags[{start}]{{{count}}}: a BOOL-array write that does not start on a DWORD boundary is encoded instead of refused (the DWORDs written would overwrite the neighbouring BOOLs)")
+            continue
         if kind == "raise":
             ctx.check(res == "RequestError" and not whole, key, fn.node, f"flags[{start}]{{{count}}} with {supplied} values is refused with RequestError",
                       f"flags[{start}]{{{count}}} with {supplied} values: {res}" + (" - a write of whole, aligned DWORDs is refused" if whole else " escapes encode_value instead of RequestError"), outcome=res)
